@@ -13,7 +13,7 @@ from hypothesis import strategies as st
 
 from vlib import gen, ref
 from vlib.case import hash_noise, make_grid, tdtype
-from vlib.core import EPS32, Facet, Skip, Violation, check_close
+from vlib.core import EPS32, EPS64, Facet, Skip, Violation, check_close
 from vlib.findings import Known
 
 PROPERTY = "C18"
@@ -25,12 +25,26 @@ MANIFEST = {
             "hash-noise content spanning the dtype's range. Checked: Image.write -> Image.read (shape, channels, dtype, bit-exact "
             "values, grid within header precision); files written by deepali read by SimpleITK and files written by SimpleITK "
             "(from an independent float64 grid model) read by Image.read / Grid.from_file; FlowField.write stores world vectors "
-            "(read back with SimpleITK, compared with the model's world vectors) and FlowField.read(...).axes(original) restores "
-            "the vectors; in-memory meta_image_bytes/read_meta_image and sitk()/from_sitk conversions. Exploration, not proof.",
+            "(read back with SimpleITK, compared with the model's world vectors; vectors already given w.r.t. the stored axes are "
+            "stored bit-exactly) and FlowField.read(...).axes(original) restores the vectors; in-memory meta_image_bytes/"
+            "read_meta_image (incl. non-contiguous / read-only array arguments and big-endian element order) and sitk()/from_sitk "
+            "conversions. Images that came out of a reader are written again: all 13 x 13 ordered pairs read(A) -> write(B) "
+            "for images and flow fields with the first file written by deepali or by SimpleITK, drawn chains of 3-4 formats, and "
+            "every hand-over between the back ends (read_image/write_image, from_sitk, sitk(), Grid.from_file, the reader's grid "
+            "reused, from_uri/to_uri); every file of a chain is compared with the model image through SimpleITK. The same values "
+            "held in unusual memory (channels-last / transposed / strided / offset views, Fortran order, read-only NumPy memory, "
+            "tensors that require grad; grids built from transposed views, NumPy views, float64 tensors) go through every writer; "
+            "file names with several dots, upper-case suffixes, spaces, not yet existing output directories, overwritten files, "
+            "relative paths, URIs, str and pathlib.Path arguments; the dtype argument of the readers and unsigned 16/32-bit files "
+            "written by SimpleITK. Exploration, not proof.",
     "note": "Trusted: SimpleITK (reader/writer and as the arbiter of what a format can represent: a configuration/grid whose "
-            "SimpleITK write->read does not reproduce the model image is skipped and counted), nibabel, the float64 grid model "
-            "of vlib/ref.py. Tolerances: data bit-exact; grid 8*eps32 relative for double-precision headers, 64*eps32 for NIfTI "
-            "(float32 header) and for comparisons against the float64 model (deepali stores grid attributes in float32). "
+            "SimpleITK write->read does not reproduce the model image is skipped and counted; likewise an upper-case file name "
+            "SimpleITK cannot use for a format only it implements), nibabel, the float64 grid model of vlib/ref.py. Tolerances: "
+            "data bit-exact; deepali -> file -> deepali: spacing and direction (stored verbatim in float32) 2*eps32 for "
+            "double-precision headers and 8*eps32 for the float32 NIfTI header (derivations next to K_ATTR_*), origin (recomputed "
+            "from the float32 centre) 8*eps32 resp. 64*eps32 of the world scale; header of a natively written file read by "
+            "SimpleITK vs the float32 grid attributes: same bounds; comparisons against the float64 model 64*eps32 (deepali stores "
+            "grid attributes in float32), plus the per-hop bounds along a conversion chain. "
             ".nia is not exercised (SimpleITK cannot read or write it); .tif/.png/.jpg/.bmp/.gipl/.mrc/.dcm lose origin or "
             "direction in SimpleITK itself and are outside 'supported'.",
     "technique": "property-based testing (Hypothesis) with exhaustive enumeration of the finite configuration space, round-trip "
@@ -40,13 +54,32 @@ ASSUMPTIONS = [
     "grids: size 1..6 per axis, spacing in [0.05, 20], |center| <= 500, |det direction| = 1 (.vtk: identity direction, the only "
     "orientation SimpleITK's VTK writer keeps)",
     "a (configuration, grid) that SimpleITK itself cannot write and read back unchanged (e.g. vector images in .h5, 3-D .vtk "
-    "with one slice, NIfTI vector images whose last axis has one sample) is skipped and counted, independent of deepali's behaviour",
-    "finite voxel values only (no NaN/inf/-0.0); files live in a per-case directory under ./.scratch which is always removed",
+    "with one slice, NIfTI vector images whose last axis has one sample) is skipped and counted, independent of deepali's behaviour; "
+    "in a conversion chain this holds for every format of the chain",
+    "finite voxel values only (no NaN/inf/-0.0); files live in a per-case directory under ./.scratch which is always removed; every "
+    "file gets its own directory (ITK's NIfTI reader opens a sibling x.nii when asked for x.nii.gz)",
+    "upper-case suffixes: asserted for the formats deepali implements itself (.MHA, .NII, .NII.GZ, .HDR/.IMG[.GZ]: the suffix tests "
+    "lower-case the name) with SimpleITK reading a lower-case copy of the file, and for SimpleITK-backed formats only where "
+    "SimpleITK can use the name; mixed-case '.Gz' is not generated",
+    "unsigned 16/32-bit files (written by SimpleITK): values must be preserved; the result may have the widened signed dtype "
+    "(int32/int64, what all three readers do for scalar images) or the stored unsigned dtype (SimpleITK vector pixels with torch >= 2.3)",
+    "big-endian MetaImage data is requested with the header key BinaryDataByteOrderMSB only (the legacy alias ElementByteOrderMSB "
+    "makes meta_image_bytes emit two contradicting keys, which MetaIO resolves in favour of BinaryDataByteOrderMSB = False; not asserted)",
 ]
 
 K_MODEL = 64.0   # vs float64 model: float32 grid attributes + header precision
-K_TEXT = 8.0     # deepali -> file -> deepali through double-precision headers
-K_NIFTI = 64.0   # NIfTI: float32 sform/pixdim
+K_TEXT = 8.0     # deepali -> file -> deepali through double-precision headers: origin (recomputed from the float32 centre)
+K_NIFTI = 64.0   # NIfTI: float32 sform/pixdim (origin)
+# Spacing and direction are stored verbatim (float32) by a Grid, so a header that holds doubles returns them within
+# 1 eps32: decimal text of a float32 parses back to the same float32 (.mha, .mhd, .mnc, .h5, .vtk), NRRD stores the
+# products direction*spacing and splits them on reading (column norm of a float32-rounded rotation = 1 +- eps32/2, plus
+# eps32/2 for the cast to float32).  K = 2 leaves a factor two.  Directions whose columns are further from unit norm (grids read
+# from a float32 header) get renormalisation_allowance() on top.
+K_ATTR_TEXT = 2.0
+# NIfTI: float32 product direction*spacing (eps32/2), float32 srow (eps32/2), pixdim = column norm (eps32/2 + eps32/2 for its
+# float32 cast), division and cast to float32 (eps32) -> < 4 eps32; K = 8 leaves a factor two.
+K_ATTR_NIFTI = 8.0
+K_DOUBLE = 4.0   # float64 header values of meta_image_bytes, in eps64: the shortest round-trip text of a double parses to that double
 
 META_NATIVE = (".mha",)
 NIFTI = (".nii", ".nii.gz", ".hdr", ".img", ".hdr.gz", ".img.gz")
@@ -55,7 +88,9 @@ SUFFIXES = META_NATIVE + NIFTI + SITK_ONLY
 DIMS = (2, 3)
 CHANNELS = (1, 2, 3)
 DTYPES = ("uint8", "int16", "int32", "float32", "float64")
-NPDT = {"uint8": np.uint8, "int16": np.int16, "int32": np.int32, "float32": np.float32, "float64": np.float64}
+NPDT = {"uint8": np.uint8, "int16": np.int16, "int32": np.int32, "float32": np.float32, "float64": np.float64,
+        "uint16": np.uint16, "uint32": np.uint32, "int64": np.int64}
+WIDENED = {"uint16": "int32", "uint32": "int64"}   # unsigned types torch lacks are widened by all three readers
 FLOW_AXES = ("world", "grid", "cube", "cube_corners")
 IDENTITY_ONLY = (".vtk",)   # SimpleITK's VTK writer does not store the direction cosines
 
@@ -87,6 +122,11 @@ class Scratch:
         d = os.path.join(self.dir, stem)
         os.makedirs(d, exist_ok=True)
         return os.path.join(d, "image" + suffix)
+
+    def subdir(self, stem: str) -> str:
+        d = os.path.join(self.dir, stem)
+        os.makedirs(d, exist_ok=True)
+        return d
 
     def __exit__(self, *exc):
         shutil.rmtree(self.dir, ignore_errors=True)
@@ -225,8 +265,24 @@ def check_grid_vs_model(grid, m: ref.GridModel, prefix: str, what: str, K: float
     return r
 
 
-def check_grid_vs_grid(back, grid, m, prefix: str, what: str, K: float) -> float:
-    """Read-back grid against the grid that was written (float32 attributes), header precision K*eps32."""
+def hop_bounds(suffix: str):
+    """(K origin, K spacing/direction) of one deepali write -> deepali read through a file with this suffix."""
+    return (K_NIFTI, K_ATTR_NIFTI) if suffix in NIFTI else (K_TEXT, K_ATTR_TEXT)
+
+
+def renormalisation_allowance(grid) -> float:
+    """Formats that store the products direction*spacing (NRRD space directions, NIfTI sform) return spacing*|column| and
+    column/|column|: a written direction whose columns have norm 1 + delta (float32 rounding, or the header precision of the file
+    the grid was read from) comes back with spacing and direction changed by |delta|.  In units of eps32, with the factor two
+    of the K_ATTR_* constants."""
+    R = grid.direction().double().numpy()
+    return 2.0 * float(np.abs(np.linalg.norm(R, axis=0) - 1.0).max()) / EPS32
+
+
+def check_grid_vs_grid(back, grid, m, prefix: str, what: str, K: float, K_attr: float = None) -> float:
+    """Read-back grid against the grid that was written (float32 attributes), header precision K*eps32
+    (K_attr*eps32 for spacing and direction, which a Grid stores verbatim)."""
+    Ko, K = K, (K if K_attr is None else K_attr) + renormalisation_allowance(grid)
     if back.ndim != grid.ndim:
         raise Violation(prefix + "_grid_ndim", f"{what}: {back.ndim}-D grid (size {tuple(back.size())}) expected {grid.ndim}-D")
     size, o, s, R = grid_attrs(back)
@@ -235,7 +291,26 @@ def check_grid_vs_grid(back, grid, m, prefix: str, what: str, K: float) -> float
         raise Violation(prefix + "_grid_size", f"{what}: size {size} expected {size0}")
     r = check_close(s / s0, np.ones(len(s0)), K * EPS32, prefix + "_grid_spacing", f"{what}: spacing {s.tolist()} vs {s0.tolist()}")
     r = max(r, check_close(R, R0, K * EPS32, prefix + "_grid_direction", f"{what}: direction"))
-    r = max(r, check_close(o, o0, K * EPS32 * world_scale(m), prefix + "_grid_origin", f"{what}: origin"))
+    r = max(r, check_close(o, o0, Ko * EPS32 * world_scale(m), prefix + "_grid_origin", f"{what}: origin"))
+    return r
+
+
+def check_header_vs_grid(simg, grid, m, suffix: str, prefix: str, what: str) -> float:
+    """Header written by one of deepali's own writers (MetaImage text, NIfTI through nibabel), read by SimpleITK, against
+    the float32 attributes of the grid that was written: the shortest decimal text of a float32 is within eps32/2 of it
+    (K_ATTR_TEXT), the float32 NIfTI header within K_ATTR_NIFTI (see above).  SimpleITK-backed formats receive the
+    attributes as Python floats and are compared with the model only."""
+    if dispatch_of(suffix) == "sitk" or simg.GetDimension() != grid.ndim:
+        return 0.0
+    _, o0, s0, R0 = grid_attrs(grid)
+    Ko, K = hop_bounds(suffix)
+    K += renormalisation_allowance(grid)
+    r = check_close(np.asarray(simg.GetSpacing()) / s0, np.ones(len(s0)), K * EPS32, prefix + "_header_spacing",
+                    f"{what}: spacing in the file {list(simg.GetSpacing())} vs grid.spacing() {s0.tolist()}")
+    r = max(r, check_close(np.asarray(simg.GetDirection()), R0.ravel(), K * EPS32, prefix + "_header_direction",
+                           f"{what}: direction in the file vs grid.direction()"))
+    r = max(r, check_close(np.asarray(simg.GetOrigin()), o0, Ko * EPS32 * world_scale(m), prefix + "_header_origin",
+                           f"{what}: origin in the file vs grid.origin()"))
     return r
 
 
@@ -451,6 +526,22 @@ def meta_enum(tier):
                             yield {"suffix": ".mha", "D": D, "C": C, "dtype": dtype, "compress": compress, "via": via,
                                    "grid": g, "key": (i * k + j) % 1000}
                         i += 1
+    # array argument held in memory differently / big-endian element order requested in the header dictionary
+    vias = ("bytes", "reader", "path", "str")
+    for D in DIMS:
+        for C in (1, 3):
+            for dtype in DTYPES:
+                for compress in (True, False):
+                    for layout in META_ARRAY_LAYOUTS:
+                        for msb in (False, True):
+                            if layout == "c" and not msb:
+                                continue
+                            pool = pools[(D, False)]
+                            for j in range(max(1, k // 2)):
+                                n = i * k + j
+                                yield {"suffix": ".mha", "D": D, "C": C, "dtype": dtype, "compress": compress, "via": vias[n % 4],
+                                       "array": layout, "msb": msb, "grid": pool[n % len(pool)], "key": n % 1000}
+                            i += 1
 
 
 # ---------------------------------------------------------------------------------------
@@ -472,7 +563,7 @@ def run_deepali_write(case):
 
     g, m, grid, arr = _case_objects(case)
     suffix, compress = case["suffix"], case["compress"]
-    K_rt = K_NIFTI if suffix in NIFTI else K_TEXT
+    K_rt, K_attr = hop_bounds(suffix)
     with Scratch() as tmp:
         # what can the format hold? decided by SimpleITK alone
         _, why = sitk_write_read(m, arr, tmp.path("sitk", suffix), compress)
@@ -492,7 +583,7 @@ def run_deepali_write(case):
             raise Violation("readback_type", f"Image.read returned {type(back).__name__}")
         what = f"Image.write->Image.read {suffix} D={case['D']} C={case['C']} {case['dtype']} compress={compress}"
         check_tensor(back.tensor(), arr, "readback", what)
-        r = check_grid_vs_grid(back.grid(), grid, m, "readback", what, K_rt)
+        r = check_grid_vs_grid(back.grid(), grid, m, "readback", what, K_rt, K_attr)
         if back.grid().align_corners() != bool(g["ac"]):
             raise Violation("readback_align_corners", f"Image.read(align_corners={g['ac']}) grid has {back.grid().align_corners()}")
         # (2) SimpleITK reads deepali's file: compared with the independent model
@@ -500,6 +591,7 @@ def run_deepali_write(case):
         bad, detail, r2 = sitk_mismatch(simg, m, arr)
         if bad is not None:
             raise Violation("sitk_reads_deepali_file_" + bad, f"{what}: {detail}")
+        r2 = max(r2, check_header_vs_grid(simg, grid, m, suffix, "deepali_file", what))
         # header-only route
         gf = Grid.from_file(path, align_corners=bool(g["ac"]))
         r3 = check_grid_vs_model(gf, m, "grid_from_deepali_file", f"Grid.from_file({suffix}) of a file written by deepali")
@@ -588,6 +680,10 @@ def run_flow(case):
         stored_arr = sitk.GetArrayFromImage(simg)                  # (..., X, D)
         r1 = check_close(stored_arr, w_last, fwd, "flow_file_vectors_not_world" if stored == "world" else "flow_file_vectors_axes",
                          f"{what}: vectors in the file (read by SimpleITK) vs model {stored} vectors")
+        if a == stored and stored_arr.tobytes() != np.ascontiguousarray(np.moveaxis(v, 0, -1)).tobytes():
+            # Grid.transform_vectors: "If to_grid == self and to_axes == axes, a reference to the unmodified input is returned"
+            raise Violation("flow_file_vectors_inexact", f"{what}: vectors already given w.r.t. the stored axes are not stored as they are "
+                                                         f"(max |delta| {float(np.abs(stored_arr - np.moveaxis(v, 0, -1)).max()):.3g})")
         # read back: vectors are tagged with the stored axes and convert back to the original representation
         if case["store"] == "default":
             rd = FlowField.read(path, align_corners=bool(g["ac"]))
@@ -601,7 +697,7 @@ def run_flow(case):
             raise Violation("flow_read_shape", f"{what}: shape {tuple(rd.shape)} expected {shape}")
         if rd.dtype != tdtype(case["dtype"]):
             raise Violation("flow_read_dtype", f"{what}: dtype {rd.dtype}")
-        r2 = check_grid_vs_grid(rd.grid(), grid, m, "flow_read", what, K_NIFTI if suffix in NIFTI else K_TEXT)
+        r2 = check_grid_vs_grid(rd.grid(), grid, m, "flow_read", what, *hop_bounds(suffix))
         check_close(rd.tensor(), w, fwd, "flow_read_vectors", f"{what}: FlowField.read tensor vs model {stored} vectors")
         orig = rd.axes(_axes(a))
         if orig.axes() != _axes(a):
@@ -617,16 +713,46 @@ def run_flow(case):
 # facet 4: MetaImage serialisation in memory
 
 
+META_ARRAY_LAYOUTS = ("c", "fortran", "strided", "readonly", "moved_axis")
+
+
+def meta_array(arr: np.ndarray, layout: str) -> np.ndarray:
+    """The MetaImage element array (..., X[, C]) of the (C, ..., X) model array, held in memory as `layout` says."""
+    a = sitk_array(arr)
+    if layout == "c":
+        return a
+    if layout == "fortran":
+        return np.asfortranarray(a)
+    if layout == "strided":
+        big = np.full(a.shape[:-1] + (2 * a.shape[-1],), 7, dtype=a.dtype)
+        big[..., ::2] = a
+        return big[..., ::2]
+    if layout == "readonly":
+        a = a.copy()
+        a.setflags(write=False)
+        return a
+    if layout == "moved_axis":     # channels-first array viewed channels-last (what torch hands over for C > 1)
+        return arr[0] if arr.shape[0] == 1 else np.moveaxis(np.ascontiguousarray(arr), 0, -1)
+    raise AssertionError(layout)
+
+
 def run_meta_bytes(case):
     from deepali.utils.imageio.meta import meta_image_bytes, read_meta_image
 
     g, m, grid, arr = _case_objects(case)
     C, compress, via = case["C"], case["compress"], case["via"]
-    what = f"meta_image_bytes->read_meta_image({via}) D={case['D']} C={C} {case['dtype']} compress={compress}"
+    layout, msb = case.get("array", "c"), bool(case.get("msb", False))
+    what = (f"meta_image_bytes({layout} array{', BinaryDataByteOrderMSB' if msb else ''})->read_meta_image({via}) D={case['D']} "
+            f"C={C} {case['dtype']} compress={compress}")
     # MetaImage element order: x fastest, channels interleaved -> array (..., X) or (..., X, C)
-    blob = meta_image_bytes(sitk_array(arr), {
-        "CompressedData": compress, "ElementNumberOfChannels": C,
-        "ElementSpacing": m.s.copy(), "Offset": m.o.copy(), "TransformMatrix": m.R.copy()})
+    element_array = meta_array(arr, layout)
+    header = {"CompressedData": compress, "ElementNumberOfChannels": C,
+              "ElementSpacing": m.s.copy(), "Offset": m.o.copy(), "TransformMatrix": m.R.copy()}
+    if msb:
+        header["BinaryDataByteOrderMSB"] = True
+    blob = meta_image_bytes(element_array, header)
+    if not np.array_equal(element_array, sitk_array(arr)):
+        raise Violation("meta_bytes_modified_array", f"{what}: the array argument was changed")
     if not isinstance(blob, bytes):
         raise Violation("meta_bytes_type", f"meta_image_bytes returned {type(blob).__name__}")
     with Scratch() as tmp:
@@ -638,6 +764,12 @@ def run_meta_bytes(case):
         bad, detail, r = sitk_mismatch(simg, m, arr)
         if bad is not None:
             raise Violation("sitk_reads_meta_image_bytes_" + bad, f"{what}: {detail}")
+        # the header dictionary holds float64 values: their text form must give the same doubles back (no float32 involved)
+        W = world_scale(m)
+        for name, act, exp, scale in (("spacing", simg.GetSpacing(), m.s, m.s), ("direction", simg.GetDirection(), m.R.ravel(), 1.0),
+                                      ("origin", simg.GetOrigin(), m.o, W)):
+            r = max(r, check_close(np.asarray(act) / scale, np.asarray(exp) / scale, K_DOUBLE * EPS64, "meta_bytes_header_" + name + "_digits",
+                                   f"{what}: {name} read by SimpleITK {list(act)} vs float64 header value {np.asarray(exp).tolist()}"))
         # and deepali reads them back, from memory / an open file / a path
         spath = tmp.path("sitk", ".mha")
         _, why = sitk_write_read(m, arr, spath, compress)
@@ -657,7 +789,7 @@ def run_meta_bytes(case):
             pre = "meta_bytes_readback" if origin_of_bytes == "deepali" else "meta_reads_sitk_bytes"
             check_tensor(data, arr, pre, f"{what} [{origin_of_bytes} bytes]")
             r = max(r, check_grid_vs_model(gr, m, pre, f"{what} [{origin_of_bytes} bytes]", K_TEXT))
-    return {"ratio": r, "nontrivial": image_nontrivial(case), "labels": labels_of(case) + [f"via={via}"]}
+    return {"ratio": r, "nontrivial": image_nontrivial(case), "labels": labels_of(case) + [f"via={via}", f"array={layout}", f"msb={msb}"]}
 
 
 # ---------------------------------------------------------------------------------------
@@ -749,6 +881,8 @@ def run_flow_memory(case):
     r = max(r, check_close(sitk.GetArrayFromImage(fimg), w_last, fwd,
                            "flow_sitk_vectors_not_world" if stored == "world" else "flow_sitk_vectors_axes",
                            f"FlowField({a}).sitk(axes={to}) vs model {stored} vectors"))
+    if a == stored and sitk.GetArrayFromImage(fimg).tobytes() != np.ascontiguousarray(np.moveaxis(v, 0, -1)).tobytes():
+        raise Violation("flow_sitk_vectors_inexact", f"FlowField({a}).sitk(axes={to}): vectors already given w.r.t. the target axes changed")
     wimg = model_image(m, np.moveaxis(w_last, -1, 0).astype(npdt))
     f2 = FlowField.from_sitk(wimg, align_corners=bool(g["ac"])) if to == "default" else \
         FlowField.from_sitk(wimg, axes=_axes(to), align_corners=bool(g["ac"]))
@@ -763,6 +897,598 @@ def run_flow_memory(case):
                            f"FlowField.from_sitk(model {stored} vectors).axes({a}) vs original"))
     return {"ratio": r, "nontrivial": grid_nontrivial(g) and a != stored,
             "labels": [f"D={D}", case["dtype"], f"axes={a}", f"to={to}", g["kind"], f"ac={g['ac']}"]}
+
+
+# ---------------------------------------------------------------------------------------
+# facet 7: format conversion - an image that came out of a reader is written again
+#
+# Objects produced by a reader differ from descriptor-built ones in memory layout (the .mha reader returns a transposed
+# view as direction matrix, the .mha and SimpleITK readers return multi-channel data as a channels-last view, ...), so a
+# writer is exercised with both: read(A) -> write(B) -> read, for all ordered pairs of formats.
+
+VIAS = ("Image.read", "read_image", "from_sitk", "sitk()", "Grid.from_file", "reader_grid", "uri")
+HANDOFF_TARGETS = (".mha", ".nii.gz", ".nrrd", ".mhd")     # one per writer (native MetaImage, nibabel, SimpleITK x 2)
+
+
+def _pool_for(pools, D, suffixes):
+    return pools[(D, any(sfx in IDENTITY_ONLY for sfx in suffixes))]
+
+
+def convert_enum(tier):
+    """Ordered pairs of suffixes x D x {scalar, multi-channel}; the writer of the first file alternates so that every pair
+    sees a deepali-written and a SimpleITK-written first file (thorough: both for every combination)."""
+    k = 1 if tier == "quick" else 4
+    _, pools = _grids_for(tier)
+    i = 11
+    for A in SUFFIXES:
+        for B in SUFFIXES:
+            for D in DIMS:
+                for ci, C in enumerate((1, 2 + (i % 2))):
+                    if excluded_known(A, D, C) or excluded_known(B, D, C):
+                        continue
+                    firsts = ("deepali", "sitk") if tier != "quick" else (("deepali", "sitk")[(D + ci) % 2],)
+                    for first in firsts:
+                        pool = _pool_for(pools, D, (A, B))
+                        for j in range(k):
+                            n = i * k + j
+                            yield {"kind": "image", "chain": [A, B], "first": first, "via": "Image.read", "D": D, "C": C,
+                                   "dtype": DTYPES[n % len(DTYPES)], "compress": bool((n // 5) % 2), "grid": pool[n % len(pool)],
+                                   "key": n % 1000}
+                        i += 1
+
+
+def convert_flow_enum(tier):
+    k = 1 if tier == "quick" else 4
+    _, pools = _grids_for(tier, min_size=2)
+    i = 5
+    for A in SUFFIXES:
+        for B in SUFFIXES:
+            for D in DIMS:
+                if excluded_known(A, D, D) or excluded_known(B, D, D):
+                    continue
+                firsts = ("deepali", "sitk") if tier != "quick" else (("deepali", "sitk")[(D + SUFFIXES.index(A) + SUFFIXES.index(B)) % 2],)
+                for first in firsts:
+                    pool = _pool_for(pools, D, (A, B))
+                    for j in range(k):
+                        n = i * k + j
+                        yield {"kind": "flow", "chain": [A, B], "first": first, "via": ("FlowField.read", "flow.sitk()")[(n // 3) % 2],
+                               "D": D, "dtype": ("float32", "float64")[n % 2], "axes": FLOW_AXES[(n // 2) % 4],
+                               "store": ("default", "grid")[(n // 8) % 2], "compress": bool((n // 16) % 2),
+                               "grid": pool[n % len(pool)], "key": n % 1000}
+                    i += 1
+
+
+def handoff_enum(tier):
+    """Every way an image read from format A can be handed to a writer, for every A and one target per writer."""
+    k = 1 if tier == "quick" else 4
+    _, pools = _grids_for(tier)
+    i = 17
+    for via in VIAS[1:]:
+        for A in SUFFIXES:
+            for B in HANDOFF_TARGETS:
+                for D in (DIMS if tier != "quick" else (DIMS[(i + i // 4) % 2],)):   # every (via, target) and (source, target) sees both
+                    C = 1 + (i % 3)
+                    if excluded_known(A, D, C) or excluded_known(B, D, C):
+                        continue
+                    pool = _pool_for(pools, D, (A, B))
+                    for j in range(k):
+                        n = i * k + j
+                        yield {"kind": "image", "chain": [A, B], "first": ("deepali", "sitk")[(n // 3) % 2], "via": via, "D": D, "C": C,
+                               "dtype": DTYPES[n % len(DTYPES)], "compress": bool((n // 5) % 2), "grid": pool[n % len(pool)],
+                               "key": n % 1000}
+                    i += 1
+
+
+@st.composite
+def chain_cases(draw):
+    """Longer chains A -> B -> C (-> D) with a hand-over drawn per case."""
+    D = draw(gen.dims())
+    n = draw(st.integers(3, 4))
+    chain = [draw(st.sampled_from(list(SUFFIXES))) for _ in range(n)]
+    ident = any(sfx in IDENTITY_ONLY for sfx in chain)
+    kind = "identity" if ident else draw(st.sampled_from(list(KIND_MIX)))
+    flow = draw(st.integers(0, 3)) == 0
+    case = {"kind": "flow" if flow else "image", "chain": chain, "first": draw(st.sampled_from(["deepali", "sitk"])), "D": D,
+            "compress": draw(st.booleans()), "key": draw(st.integers(0, 999))}
+    if flow:
+        case.update(via=draw(st.sampled_from(["FlowField.read", "flow.sitk()"])), dtype=draw(st.sampled_from(["float32", "float64"])),
+                    axes=draw(st.sampled_from(list(FLOW_AXES))), store=draw(st.sampled_from(["default", "grid"])),
+                    grid=draw(io_grids(D, kind, 2)))
+    else:
+        case.update(via=draw(st.sampled_from(list(VIAS))), C=draw(st.sampled_from(list(CHANNELS))),
+                    dtype=draw(st.sampled_from(list(DTYPES))), grid=draw(io_grids(D, kind)))
+    return case
+
+
+def _capable(tmp, m, arr, suffixes, compress):
+    """SimpleITK alone decides whether every format of the chain can hold the model image."""
+    for n, sfx in enumerate(dict.fromkeys(suffixes)):
+        _, why = sitk_write_read(m, arr, tmp.path(f"cap{n}", sfx), compress)
+        if why:
+            raise Skip(f"sitk_cannot_represent:{dispatch_of(sfx)}:{why}")
+
+
+def _file_uri(path: str) -> str:
+    return "file://" + path
+
+
+def run_convert(case):
+    if case["kind"] == "flow":
+        return run_convert_flow(case)
+    import SimpleITK as sitk
+    from deepali.core import Grid
+    from deepali.data import Image
+    from deepali.utils.imageio import read_image, write_image
+
+    g, m, grid, arr = _case_objects(case)
+    chain, compress, via, ac = case["chain"], case["compress"], case["via"], bool(g["ac"])
+    ratio = 0.0
+    with Scratch() as tmp:
+        _capable(tmp, m, arr, chain, compress)
+        path = tmp.path("gen0", chain[0])
+        if case["first"] == "deepali":
+            Image(torch.from_numpy(arr.copy()), grid).write(path, compress=compress)
+        else:
+            sitk.WriteImage(model_image(m, arr), path, bool(compress))
+        Ko, Ka = K_MODEL, K_MODEL          # first file against the model: as in the single-format facets
+        for n, sfx in enumerate(chain[1:], 1):
+            what = (f"{case['first']}-written {chain[0]}" + "".join(f" -> {c}" for c in chain[1:n + 1]) +
+                    f" [{via}] D={case['D']} C={case['C']} {case['dtype']} compress={compress}")
+            out = tmp.path(f"gen{n}", sfx)
+            if via == "Image.read":
+                img = Image.read(path, align_corners=ac)
+                img.write(out, compress=compress)
+            elif via == "read_image":
+                data, gr = read_image(pathlib.Path(path))
+                write_image(data, gr, pathlib.Path(out), compress=compress)
+                img = Image(data, gr)
+            elif via == "from_sitk":
+                img = Image.from_sitk(sitk.ReadImage(path), align_corners=ac)
+                img.write(out, compress=compress)
+            elif via == "sitk()":
+                img = Image.read(path, align_corners=ac)
+                simg = img.sitk()
+                bad, detail, _ = sitk_mismatch(simg, m, arr, max(Ko, Ka))
+                if bad is not None:
+                    raise Violation("read_then_sitk_" + bad, f"Image.read({chain[n - 1]}).sitk() of {what}: {detail}")
+                sitk.WriteImage(simg, out, bool(compress))
+            elif via == "Grid.from_file":
+                gr = Grid.from_file(path, align_corners=ac)
+                img = Image(torch.from_numpy(arr.copy()), gr)
+                img.write(out, compress=compress)
+            elif via == "reader_grid":
+                img = Image(torch.from_numpy(arr.copy()), Image.read(path, align_corners=ac).grid())
+                img.write(out, compress=compress)
+            elif via == "uri":
+                img = Image.from_uri(_file_uri(path), align_corners=ac)
+                img.to_uri(_file_uri(out), compress=compress)
+            else:
+                raise AssertionError(via)
+            # the image that was handed over is the model image ...
+            check_tensor(img.tensor(), arr, "convert_read", f"image read from {chain[n - 1]} in {what}")
+            ratio = max(ratio, check_grid_vs_model(img.grid(), m, "convert_read", f"image read from {chain[n - 1]} in {what}", max(Ko, Ka)))
+            if via != "read_image" and img.grid().align_corners() != ac:
+                raise Violation("convert_read_align_corners", f"{what}: align_corners argument not applied")
+            # ... and so is the file it was written to, for SimpleITK and for deepali
+            ho, ha = hop_bounds(sfx)
+            Ko, Ka = Ko + ho, Ka + ha
+            simg = sitk_read(out, "sitk_cannot_read_converted_file")
+            bad, detail, r = sitk_mismatch(simg, m, arr, max(Ko, Ka))
+            if bad is not None:
+                raise Violation("sitk_reads_converted_file_" + bad, f"{what}: {detail}")
+            ratio = max(ratio, r)
+            back = Image.read(out, align_corners=ac)
+            check_tensor(back.tensor(), arr, "convert_readback", what)
+            ratio = max(ratio, check_grid_vs_model(back.grid(), m, "convert_readback", what, max(Ko, Ka)))
+            if via != "sitk()":
+                # this hop alone: the (reader-made) grid that deepali wrote against the grid it reads back, header precision
+                ratio = max(ratio, check_grid_vs_grid(back.grid(), img.grid(), m, "convert_hop", what, ho, ha))
+                ratio = max(ratio, check_header_vs_grid(simg, img.grid(), m, sfx, "converted_file", what))
+            path = out
+    labels = [f"{dispatch_of(a)}->{dispatch_of(b)}" for a, b in zip(chain, chain[1:])]
+    labels += [f"first={case['first']}", f"via={via}", f"len={len(chain)}", f"D={case['D']}", f"C={case['C']}", case["dtype"], g["kind"]]
+    return {"ratio": ratio, "nontrivial": image_nontrivial(dict(case, suffix=chain[0])), "labels": labels}
+
+
+def run_convert_flow(case):
+    import SimpleITK as sitk
+    from deepali.data import FlowField
+
+    g = case["grid"]
+    m = ref.GridModel.from_desc(g)
+    grid = make_grid(g)
+    D, chain, compress, via, ac = case["D"], case["chain"], case["compress"], case["via"], bool(g["ac"])
+    a = case["axes"]
+    stored = "world" if case["store"] == "default" else case["store"]
+    npdt = NPDT[case["dtype"]]
+    shape = (D,) + tuple(int(v) for v in m.n[::-1])
+    v = vector_content(shape, case["key"]).astype(npdt)           # (D, ..., X) w.r.t. axes a
+    v_last = np.moveaxis(v.astype(np.float64), 0, -1)
+    w_last, fwd, back_bound = flow_bounds(m, v_last, a, stored)
+    w = np.moveaxis(w_last, -1, 0).astype(npdt)                    # model: what every file of the chain holds
+    kw = {} if case["store"] == "default" else {"axes": _axes(stored)}
+    ratio = 0.0
+    with Scratch() as tmp:
+        _capable(tmp, m, w, chain, compress)
+        path = tmp.path("gen0", chain[0])
+        if case["first"] == "deepali":
+            FlowField(torch.from_numpy(v.copy()), grid, _axes(a)).write(path, compress=compress, **kw)
+        else:
+            sitk.WriteImage(model_image(m, w), path, bool(compress))
+        first_arr = None
+        for n, sfx in enumerate(chain[1:], 1):
+            what = (f"flow({a}) {case['first']}-written {chain[0]}" + "".join(f" -> {c}" for c in chain[1:n + 1]) +
+                    f" [{via}, stored axes {case['store']}] D={D} {case['dtype']} compress={compress}")
+            out = tmp.path(f"gen{n}", sfx)
+            rd = FlowField.read(path, align_corners=ac, **kw)
+            if rd.axes() != _axes(stored):
+                raise Violation("flow_read_axes", f"{what}: FlowField.read(...).axes() is {rd.axes()}, file holds {stored} vectors")
+            if via == "FlowField.read":
+                rd.write(out, compress=compress, **kw)
+            else:
+                fimg = rd.sitk(**kw)
+                sitk.WriteImage(fimg, out, bool(compress))
+            simg = sitk_read(out, "sitk_cannot_read_converted_file")
+            bad, detail, r = sitk_mismatch(simg, m, np.zeros_like(w), K_MODEL + n * K_NIFTI)
+            if bad is not None and bad != "pixels":
+                raise Violation("converted_flow_file_" + bad, f"{what}: {detail}")
+            stored_arr = sitk.GetArrayFromImage(simg)
+            # vectors w.r.t. the stored axes are not touched by a conversion that keeps these axes: 'grid' vectors exactly,
+            # world vectors up to the identity conversion world -> world of the read-back grid
+            ratio = max(ratio, r, check_close(stored_arr, w_last, fwd, "converted_flow_file_vectors",
+                                              f"{what}: vectors in the file (read by SimpleITK) vs model {stored} vectors"))
+            if first_arr is None:
+                first_arr = sitk.GetArrayFromImage(sitk_read(path, "sitk_cannot_read_deepali_file"))
+            if stored_arr.tobytes() != first_arr.tobytes():
+                raise Violation("converted_flow_vectors_changed",
+                                f"{what}: {int((stored_arr != first_arr).sum())} of {stored_arr.size} vector components of the "
+                                f"converted file differ from the first file (max {float(np.abs(stored_arr - first_arr).max()):.3g})")
+            back = FlowField.read(out, align_corners=ac, **kw)
+            if tuple(back.shape) != shape or back.dtype != tdtype(case["dtype"]):
+                raise Violation("convert_flow_shape", f"{what}: shape {tuple(back.shape)} dtype {back.dtype}")
+            ratio = max(ratio, check_grid_vs_model(back.grid(), m, "convert_flow", what, K_MODEL + n * K_NIFTI))
+            if via == "FlowField.read":
+                ratio = max(ratio, check_grid_vs_grid(back.grid(), rd.grid(), m, "convert_flow_hop", what, *hop_bounds(sfx)))
+            path = out
+        orig = back.axes(_axes(a))
+        ratio = max(ratio, check_close(orig.tensor(), v, back_bound + (len(chain) - 1) * K_NIFTI * EPS32 * max(float(np.abs(v).max()), 1e-30),
+                                       "convert_flow_roundtrip_vectors", f"{what}: FlowField.read(...).axes({a}) vs original vectors"))
+    labels = [f"{dispatch_of(x)}->{dispatch_of(y)}" for x, y in zip(chain, chain[1:])]
+    labels += ["flow", f"first={case['first']}", f"via={via}", f"len={len(chain)}", f"D={D}", case["dtype"], f"axes={a}",
+               f"store={case['store']}", g["kind"]]
+    return {"ratio": ratio, "nontrivial": grid_nontrivial(g) and a != stored, "labels": labels}
+
+
+# ---------------------------------------------------------------------------------------
+# facet 8: memory layouts - the same image/grid values held in tensors that are not plain contiguous arrays
+
+DATA_LAYOUTS = ("channels_last", "transposed", "strided", "offset", "fortran", "readonly", "requires_grad", "grad_fn", "channel_less")
+# "channel_less": scalar image given to write_image() as (..., X) tensor.  The two native writers state the accepted forms in their
+# error message ("write_image() data.ndim must be equal to grid.ndim or grid.ndim + 1"); the SimpleITK-backed writer documents
+# (C, ..., X) only (image_from_tensor), so this form is generated for the MetaImage and NIfTI suffixes alone.
+GRID_LAYOUTS = ("plain", "direction_view", "numpy_views", "float64_tensors")
+LAYOUT_OPS = ("write", "write_image", "sitk()")
+
+
+def layout_tensor(arr: np.ndarray, layout: str) -> torch.Tensor:
+    """Tensor with shape, dtype and values of arr (C, ..., X) whose memory is laid out differently."""
+    dt = arr.dtype
+    fill = np.array(7, dtype=dt)
+    if layout == "contiguous":
+        return torch.from_numpy(arr.copy())
+    if layout == "channels_last":      # what the .mha / SimpleITK readers return for C > 1
+        return torch.from_numpy(np.ascontiguousarray(np.moveaxis(arr, 0, -1))).movedim(-1, 0)
+    if layout == "transposed":         # view of an array stored with x and y swapped
+        return torch.from_numpy(np.ascontiguousarray(np.swapaxes(arr, -1, -2))).transpose(-1, -2)
+    if layout == "strided":            # every second sample of a larger array
+        big = np.full(arr.shape[:-1] + (2 * arr.shape[-1],), fill, dtype=dt)
+        big[..., ::2] = arr
+        return torch.from_numpy(big)[..., ::2]
+    if layout == "offset":             # region of interest of a larger array (storage offset, row gaps)
+        big = np.full((arr.shape[0] + 1,) + tuple(n + 2 for n in arr.shape[1:]), fill, dtype=dt)
+        inner = (slice(1, None),) + tuple(slice(1, -1) for _ in arr.shape[1:])
+        big[inner] = arr
+        return torch.from_numpy(big)[inner]
+    if layout == "fortran":
+        return torch.from_numpy(np.asfortranarray(arr))
+    if layout == "readonly":
+        a = arr.copy()
+        a.setflags(write=False)
+        import warnings
+        with warnings.catch_warnings():
+            warnings.simplefilter("ignore")
+            return torch.from_numpy(a)
+    if layout == "requires_grad":      # leaf that requires grad (floating point only)
+        return torch.from_numpy(arr.copy()).requires_grad_(True)
+    if layout == "grad_fn":            # result of a differentiable operation (floating point only)
+        return torch.from_numpy(arr.copy()).requires_grad_(True) * 1
+    raise AssertionError(layout)
+
+
+def layout_grid(g: dict, m: ref.GridModel, layout: str):
+    from deepali.core import Grid
+
+    if layout == "plain":
+        return make_grid(g)
+    ac = bool(g["ac"])
+    size = [int(v) for v in m.n]
+    if layout == "direction_view":     # float32 matrix that is a transposed view (what read_meta_image passes to Grid)
+        Rt = torch.tensor(np.ascontiguousarray(m.R.T), dtype=torch.float32)
+        return Grid(size=size, origin=[float(v) for v in m.o], spacing=[float(v) for v in m.s], direction=Rt.t(), align_corners=ac)
+    if layout == "numpy_views":        # NumPy arguments that are views of other arrays
+        both = np.stack([m.o, m.s], axis=1)                 # columns: origin, spacing (stride 2)
+        return Grid(size=np.asarray(size), origin=both[:, 0], spacing=both[:, 1], direction=np.ascontiguousarray(m.R.T).T,
+                    align_corners=ac)
+    if layout == "float64_tensors":
+        return Grid(size=torch.tensor(size), origin=torch.tensor(m.o, dtype=torch.float64), spacing=torch.tensor(m.s, dtype=torch.float64),
+                    direction=torch.tensor(m.R, dtype=torch.float64).flatten(), align_corners=ac)
+    raise AssertionError(layout)
+
+
+def layouts_enum(tier):
+    k = 1 if tier == "quick" else 6
+    _, pools = _grids_for(tier)
+    _, fpools = _grids_for(tier, min_size=2)
+    i = 23
+    for suffix in SUFFIXES:
+        for D in DIMS:
+            for layout in DATA_LAYOUTS:
+                for kind in ("image", "flow"):
+                    C = D if kind == "flow" else 1 + (i % 3)
+                    if layout == "channel_less":
+                        if kind == "flow" or dispatch_of(suffix) == "sitk":
+                            continue
+                        C = 1
+                    if excluded_known(suffix, D, C):
+                        continue
+                    pool = (fpools if kind == "flow" else pools)[(D, suffix in IDENTITY_ONLY)]
+                    for j in range(k):
+                        n = i * k + j
+                        floating = kind == "flow" or layout in ("requires_grad", "grad_fn")
+                        dtype = ("float32", "float64")[n % 2] if floating else DTYPES[n % len(DTYPES)]
+                        case = {"kind": kind, "suffix": suffix, "D": D, "C": C, "dtype": dtype, "layout": layout,
+                                "grid_layout": GRID_LAYOUTS[(n // 2) % len(GRID_LAYOUTS)], "op": LAYOUT_OPS[(n // 8) % len(LAYOUT_OPS)],
+                                "compress": bool((n // 3) % 2), "grid": pool[n % len(pool)], "key": n % 1000}
+                        if kind == "flow":
+                            case["axes"] = FLOW_AXES[(n // 4) % 4]
+                            case["op"] = ("write", "sitk()")[(n // 8) % 2]
+                        if layout == "channel_less":
+                            case["op"] = "write_image"
+                        yield case
+                    i += 1
+
+
+def run_layouts(case):
+    import SimpleITK as sitk
+    from deepali.data import FlowField, Image
+    from deepali.utils.imageio import write_image
+
+    g = case["grid"]
+    m = ref.GridModel.from_desc(g)
+    D, C, suffix, compress, op, ac = case["D"], case["C"], case["suffix"], case["compress"], case["op"], bool(g["ac"])
+    shape = (C,) + tuple(int(v) for v in m.n[::-1])
+    flow = case["kind"] == "flow"
+    if flow:
+        a = case["axes"]
+        arr = vector_content(shape, case["key"]).astype(NPDT[case["dtype"]])
+        w_last, fwd, _ = flow_bounds(m, np.moveaxis(arr.astype(np.float64), 0, -1), a, "world")
+        expect = np.moveaxis(w_last, -1, 0).astype(arr.dtype)
+    else:
+        arr = content(shape, case["dtype"], case["key"])
+        expect = arr
+    what = (f"{case['kind']} data layout {case['layout']}, grid built as {case['grid_layout']}: {op} {suffix} D={D} C={C} "
+            f"{case['dtype']} compress={compress}")
+    with Scratch() as tmp:
+        _capable(tmp, m, expect, [suffix], compress)
+        grid = layout_grid(g, m, case["grid_layout"])
+        ratio = check_grid_vs_model(grid, m, "layout_grid", f"Grid built from {case['grid_layout']} arguments")
+        channel_less = case["layout"] == "channel_less"
+        data = torch.from_numpy(arr[0].copy()) if channel_less else layout_tensor(arr, case["layout"])
+        given = arr[0] if channel_less else arr
+        assert tuple(data.shape) == given.shape and np.array_equal(data.detach().numpy(), given)
+        before = (tuple(data.shape), data.stride(), data.storage_offset(), data.requires_grad)
+        if not channel_less:
+            obj = FlowField(data, grid, _axes(a)) if flow else Image(data, grid)
+            check_tensor(obj.tensor(), arr, "layout_image", f"{type(obj).__name__}(data) of {what}")
+        path = tmp.path("deepali", suffix)
+        if op == "write":
+            obj.write(path, compress=compress)
+        elif op == "write_image":
+            write_image(data, grid, path, compress=compress)
+        else:
+            simg = obj.sitk()
+            if not flow:
+                bad, detail, r = sitk_mismatch(simg, m, arr)
+                if bad is not None:
+                    raise Violation("layout_sitk_" + bad, f"{what}: {detail}")
+                ratio = max(ratio, r)
+            sitk.WriteImage(simg, path, bool(compress))
+        after = (tuple(data.shape), data.stride(), data.storage_offset(), data.requires_grad)
+        if after != before or not np.array_equal(data.detach().numpy(), given):
+            raise Violation("write_modified_image", f"{what}: the caller's tensor changed (shape/stride/offset/requires_grad "
+                                                    f"{before} -> {after} or its values)")
+        simg = sitk_read(path, "sitk_cannot_read_deepali_file")
+        bad, detail, r = sitk_mismatch(simg, m, np.zeros_like(expect) if flow else expect)
+        if bad is not None and not (flow and bad == "pixels"):
+            raise Violation("layout_file_" + bad, f"{what}: {detail}")
+        ratio = max(ratio, r)
+        if flow:
+            ratio = max(ratio, check_close(sitk.GetArrayFromImage(simg), w_last, fwd, "layout_file_flow_vectors",
+                                           f"{what}: vectors in the file (read by SimpleITK) vs model world vectors"))
+            if a == "world" and sitk.GetArrayFromImage(simg).tobytes() != sitk_array(arr).tobytes():
+                raise Violation("layout_file_flow_vectors_inexact", f"{what}: world vectors are stored as they are, file differs")
+            back = FlowField.read(path, align_corners=ac)
+            ratio = max(ratio, check_close(back.tensor(), expect, fwd, "layout_readback_flow_vectors", f"{what}: FlowField.read"))
+        else:
+            back = Image.read(path, align_corners=ac)
+            check_tensor(back.tensor(), arr, "layout_readback", what)
+        ratio = max(ratio, check_grid_vs_model(back.grid(), m, "layout_readback", what))
+    labels = [suffix, f"dispatch={dispatch_of(suffix)}", case["kind"], f"layout={case['layout']}", f"grid={case['grid_layout']}", f"op={op}",
+              f"D={D}", f"C={C}", case["dtype"]]
+    return {"ratio": ratio, "nontrivial": grid_nontrivial(g), "labels": labels}
+
+
+# ---------------------------------------------------------------------------------------
+# facet 9: file names and path arguments
+
+PATH_STYLES = ("path", "dots", "upper", "space", "newdir", "overwrite", "relative", "uri")
+STYLE_NAME = {"path": "image", "dots": "sub-01.T1w.v2", "upper": "IMAGE", "space": "my image", "newdir": "image", "overwrite": "image",
+              "relative": "image", "uri": "image"}
+
+
+def paths_enum(tier):
+    k = 1 if tier == "quick" else 6
+    _, pools = _grids_for(tier)
+    i = 29
+    for suffix in SUFFIXES:
+        for style in PATH_STYLES:
+            for ptype in ("str", "Path"):
+                if style == "uri" and ptype == "Path":
+                    continue
+                for j in range(k):
+                    n = i * k + j
+                    D = DIMS[n % 2]
+                    C = CHANNELS[(n // 2) % 3]
+                    if excluded_known(suffix, D, C):
+                        continue
+                    pool = pools[(D, suffix in IDENTITY_ONLY)]
+                    yield {"suffix": suffix, "style": style, "ptype": ptype, "D": D, "C": C, "dtype": DTYPES[(n // 6) % len(DTYPES)],
+                           "compress": bool((n // 3) % 2), "grid": pool[n % len(pool)], "key": n % 1000}
+                i += 1
+
+
+def _lower_copy(src_dir: str, dst_dir: str, name: str) -> str:
+    for f in os.listdir(src_dir):
+        shutil.copyfile(os.path.join(src_dir, f), os.path.join(dst_dir, f.lower()))
+    return os.path.join(dst_dir, name.lower())
+
+
+def run_paths(case):
+    import SimpleITK as sitk
+    from deepali.core import Grid
+    from deepali.data import Image
+
+    g, m, grid, arr = _case_objects(case)
+    suffix, style, ptype, compress, ac = case["suffix"], case["style"], case["ptype"], case["compress"], bool(g["ac"])
+    what = f"{style} name, {ptype} argument, {suffix} D={case['D']} C={case['C']} {case['dtype']} compress={compress}"
+    with Scratch() as tmp:
+        _capable(tmp, m, arr, [suffix], compress)
+        name = STYLE_NAME[style] + (suffix.upper() if style == "upper" else suffix)
+        through_copy = False
+        if style == "upper":
+            # SimpleITK decides whether it can work with such a name; deepali's own readers/writers lower-case the suffix, so
+            # for them the file content is handed to SimpleITK under a lower-case name instead
+            _, why = sitk_write_read(m, arr, os.path.join(tmp.subdir("sitk_name"), name), compress)
+            if why:
+                if dispatch_of(suffix) == "sitk":
+                    raise Skip("sitk_cannot_use_name:" + suffix)
+                through_copy = True
+        d = tmp.subdir("deepali")
+        if style == "newdir":            # documented: writers create the output directory (unlink_or_mkdir, write_bytes)
+            d = os.path.join(d, "new", "deeper")
+        fpath = os.path.join(d, name)
+        if style == "overwrite":         # an older, longer file of the same name is replaced
+            other = content(arr.shape, case["dtype"], case["key"] + 7)
+            sitk.WriteImage(model_image(m, other), fpath, False)
+        arg = fpath
+        if style == "relative":
+            arg = os.path.relpath(fpath)
+        if style == "uri":
+            arg = _file_uri(fpath)
+        if ptype == "Path":
+            arg = pathlib.Path(arg)
+        image = Image(torch.from_numpy(arr.copy()), grid)
+        if style == "uri":
+            image.to_uri(arg, compress=compress)
+        else:
+            image.write(arg, compress=compress)
+        if not os.path.isfile(fpath):
+            raise Violation("file_not_written", f"{what}: no file {name} after write (directory holds {sorted(os.listdir(d)) if os.path.isdir(d) else None})")
+        back = Image.from_uri(arg, align_corners=ac) if style == "uri" else Image.read(arg, align_corners=ac)
+        check_tensor(back.tensor(), arr, "path_readback", what)
+        if back.grid().align_corners() != ac:
+            raise Violation("path_readback_align_corners", f"{what}: align_corners={ac} not applied by the reader")
+        r = check_grid_vs_grid(back.grid(), grid, m, "path_readback", what, *hop_bounds(suffix))
+        spath = _lower_copy(d, tmp.subdir("lower"), name) if through_copy else fpath
+        simg = sitk_read(spath, "sitk_cannot_read_deepali_file")
+        bad, detail, r2 = sitk_mismatch(simg, m, arr)
+        if bad is not None:
+            raise Violation("sitk_reads_deepali_file_" + bad, f"{what}: {detail}")
+        if style != "uri" and not through_copy:
+            r2 = max(r2, check_grid_vs_model(Grid.from_file(arg, align_corners=ac), m, "grid_from_deepali_file", f"Grid.from_file, {what}"))
+    labels = [suffix, f"dispatch={dispatch_of(suffix)}", f"style={style}", f"arg={ptype}", f"D={case['D']}", f"C={case['C']}", case["dtype"]]
+    return {"ratio": max(r, r2), "nontrivial": grid_nontrivial(g), "labels": labels}
+
+
+# ---------------------------------------------------------------------------------------
+# facet 10: dtype argument of the readers, unsigned types without torch counterpart
+
+READ_TARGETS = {   # casts that are exact
+    "uint8": ("float32", "float64", "int16", "int32", "int64"), "int16": ("float32", "float64", "int32", "int64"),
+    "int32": ("float64", "int64"), "float32": ("float64",), "float64": (), "uint16": ("float32", "float64", "int32", "int64"),
+    "uint32": ("float64", "int64"),
+}
+
+
+def options_enum(tier):
+    k = 1 if tier == "quick" else 8
+    _, pools = _grids_for(tier)
+    i = 31
+    for suffix in SUFFIXES:
+        for D in DIMS:
+            for dtype in DTYPES + ("uint16", "uint32"):
+                for j in range(k):
+                    n = i * k + j
+                    C = CHANNELS[n % 3]
+                    if excluded_known(suffix, D, C):
+                        continue
+                    pool = pools[(D, suffix in IDENTITY_ONLY)]
+                    yield {"suffix": suffix, "D": D, "C": C, "dtype": dtype, "compress": bool((n // 3) % 2),
+                           "first": "sitk" if dtype in WIDENED else ("deepali", "sitk")[(n // 6) % 2], "grid": pool[n % len(pool)], "key": n % 1000}
+                i += 1
+
+
+def run_read_options(case):
+    import SimpleITK as sitk
+    from deepali.data import FlowField, Image
+
+    g, m, grid, arr = _case_objects(case)
+    suffix, compress, src, ac = case["suffix"], case["compress"], case["dtype"], bool(g["ac"])
+    what = f"{case['first']}-written {suffix} D={case['D']} C={case['C']} {src} compress={compress}"
+    with Scratch() as tmp:
+        _capable(tmp, m, arr, [suffix], compress)
+        path = tmp.path("file", suffix)
+        if case["first"] == "deepali":
+            Image(torch.from_numpy(arr.copy()), grid).write(path, compress=compress)
+        else:
+            sitk.WriteImage(model_image(m, arr), path, bool(compress))
+        def natural(t):
+            # unsigned 16/32 bit: the readers widen to the next signed type (torch < 2.3 has no such dtypes); a tensor of the
+            # stored unsigned type itself (SimpleITK vector pixels with a recent torch) is just as faithful - values decide
+            if src in WIDENED and t.dtype == tdtype(WIDENED[src]):
+                return arr.astype(NPDT[WIDENED[src]])
+            return arr
+
+        img = Image.read(path, align_corners=ac)
+        check_tensor(img.tensor(), natural(img), "read_default_dtype", f"Image.read of {what}")
+        r = check_grid_vs_model(img.grid(), m, "read_default_dtype", what)
+        mimg = model_image(m, arr)
+        img2 = Image.from_sitk(mimg)
+        check_tensor(img2.tensor(), natural(img2), "from_sitk_default_dtype", f"Image.from_sitk, {src}")
+        for target in READ_TARGETS[src]:
+            exp = arr.astype(NPDT[target])
+            t = tdtype(target)
+            cast = Image.read(path, align_corners=ac, dtype=t)
+            check_tensor(cast.tensor(), exp, "read_dtype_argument", f"Image.read(dtype={target}) of {what}")
+            r = max(r, check_grid_vs_model(cast.grid(), m, "read_dtype_argument", what))
+            check_tensor(Image.from_sitk(mimg, dtype=t).tensor(), exp, "from_sitk_dtype_argument", f"Image.from_sitk(dtype={target}), {src}")
+            if case["C"] == case["D"] and target.startswith("float"):
+                flow = FlowField.read(path, align_corners=ac, dtype=t)
+                check_tensor(flow.tensor(), exp, "flow_read_dtype_argument", f"FlowField.read(dtype={target}) of {what}")
+                check_tensor(FlowField.from_sitk(mimg, dtype=t).tensor(), exp, "flow_from_sitk_dtype_argument",
+                             f"FlowField.from_sitk(dtype={target}), {src}")
+    labels = [suffix, f"dispatch={dispatch_of(suffix)}", f"first={case['first']}", f"D={case['D']}", f"C={case['C']}", src]
+    return {"ratio": r, "nontrivial": grid_nontrivial(g), "labels": labels}
 
 
 # ---------------------------------------------------------------------------------------
@@ -811,6 +1537,39 @@ FACETS = [
     Facet("sitk_memory", run_memory, strategy=memory_cases, quick=300, thorough=6000, shards=8, quick_shards=1,
           rule="drawn D, C, dtype, grid: Image.sitk/from_sitk, image_from_tensor/tensor_from_image, Grid.from_sitk against the "
                "model; non-trivial as for images"),
+    Facet("convert", run_convert, enumerate=lambda tier: list(convert_enum(tier)) + list(convert_flow_enum(tier)),
+          exhaustive_tiers=("quick", "thorough"), strategy=chain_cases, quick=80, thorough=3000, shards=16, quick_shards=4,
+          rule="read(A) -> write(B) -> read for all 13 x 13 ordered pairs of suffixes x D x {scalar, multi-channel} (images: "
+               "Image.read/Image.write) and x D (flow fields: FlowField.read -> write or sitk() with the stored axes), first file "
+               "written by deepali or by SimpleITK from the model (quick: alternating; thorough: both, 4 grids each), dtype/compress/"
+               "vector axes/grids cycled; plus Hypothesis-drawn chains of 3-4 formats with a drawn hand-over; every file of the chain "
+               "is read by SimpleITK and compared with the model image (values exact, grid within the summed header precision of the "
+               "chain); flow vectors w.r.t. the stored axes stay bit-identical along the chain; non-trivial as for images / flows"),
+    Facet("handoff", run_convert, enumerate=handoff_enum, exhaustive_tiers=("quick", "thorough"), quick=0, thorough=0, shards=8,
+          quick_shards=2,
+          rule="hand-overs between the I/O back ends, enumerated: {read_image->write_image with Path, Image.from_sitk(sitk.ReadImage), "
+               "Image.read(...).sitk() -> sitk.WriteImage, Image(data, Grid.from_file(A)), Image(data, Image.read(A).grid()), "
+               "Image.from_uri/to_uri} x source suffix (13) x target {.mha, .nii.gz, .nrrd, .mhd} (thorough: x D, 4 grids each), "
+               "D/C/dtype/compress/first writer cycled; oracle as for convert"),
+    Facet("layouts", run_layouts, enumerate=layouts_enum, exhaustive_tiers=("quick", "thorough"), quick=0, thorough=0, shards=8,
+          quick_shards=2,
+          rule="suffix (13) x D x data layout {channels-last view, transposed view, strided view, offset region of a larger tensor, "
+               "Fortran order, read-only NumPy memory, requires_grad leaf, tensor with grad_fn; scalar (..., X) tensor without channel axis "
+               "for write_image of the native MetaImage/NIfTI writers} x {image, flow field} enumerated; grid "
+               "built from {descriptor, transposed float32 direction view, NumPy views, float64 tensors}, operation {write, write_image, "
+               "sitk() -> sitk.WriteImage}, C, dtype, compress, vector axes cycled (thorough: 6 each); the file read by SimpleITK "
+               "and by deepali equals the model, the caller's tensor is untouched; non-trivial = oblique anisotropic off-centre grid"),
+    Facet("paths", run_paths, enumerate=paths_enum, exhaustive_tiers=("quick", "thorough"), quick=0, thorough=0, shards=8, quick_shards=2,
+          rule="suffix (13) x name style {plain, several dots in the stem, upper-case suffix, space, output directory that does not "
+               "exist yet, overwrite a longer file, relative path, file:// URI through to_uri/from_uri} x argument type {str, "
+               "pathlib.Path} enumerated, D/C/dtype/compress/grid cycled (thorough: 6 each); Image.write -> Image.read / SimpleITK "
+               "(under a lower-case copy of the file where SimpleITK itself cannot use an upper-case suffix) / Grid.from_file"),
+    Facet("read_options", run_read_options, enumerate=options_enum, exhaustive_tiers=("quick", "thorough"), quick=0, thorough=0, shards=8,
+          quick_shards=2,
+          rule="suffix (13) x D x stored type {uint8, int16, int32, float32, float64, and uint16, uint32 written by SimpleITK} enumerated, "
+               "C/compress/first writer/grid cycled (thorough: 8 each): Image.read / Image.from_sitk without dtype (unsigned 16/32 bit "
+               "arrive as int32/int64 with the same values) and with every dtype argument the stored type converts to exactly; "
+               "FlowField.read / from_sitk(dtype=...) for C = D"),
     Facet("flow_sitk", run_flow_memory, enumerate=flow_memory_enum, exhaustive_tiers=("quick", "thorough"),
           quick=0, thorough=0, shards=8, quick_shards=1,
           rule="D x {float32,float64} x vector axes x target axes {default=world, world, grid, cube, cube_corners} enumerated x drawn "
